@@ -33,7 +33,9 @@ func (C06) Generate(rng *rand.Rand, tier string) []core.Case {
 		g := &dbGen{rng: rng, ts: 1000}
 		mode := []string{"mix", "idx", "mix", "seq", "notif"}[rng.Intn(5)]
 		prog := g.program(mode, 10+rng.Intn(30))
-		cases = append(cases, core.Case{Name: fmt.Sprintf("repl-%s-%d", mode, i), Ops: clusterProgram(rng, prog)})
+		// a quarter of the scripts also crash nodes (the database falls back to its last flush): a node elected
+		// afterwards replays several entries, and has to end where the others are
+		cases = append(cases, core.Case{Name: fmt.Sprintf("repl-%s-%d", mode, i), Ops: clusterProgramOpt(rng, prog, i%4 == 3)})
 	}
 	return cases
 }
